@@ -1,5 +1,5 @@
 CONSTANTS
-  CommitOrder = "publish_first"
+  CommitOrder = "storage_first"
   NanoMax = 3
   Fine = FALSE
 INIT Init
